@@ -237,6 +237,21 @@ def run_unit(unit):
                 twice = sorted(sid for sid, c in seen_once.items() if c > 1)
                 if twice:
                     flag("onDone-twice-for-one-completion(" + byid[twice[0]].kind + ")", f"onDone of {twice} ran more than once in one step: {got}", hist, ev)
+            if mode != "leave":
+                # the same reasoning for the reference: when one transition enters final states in several regions, each
+                # of them saw its parallel ancestor complete in the configuration of its entry action - that is ONE
+                # completion, due once (carrying the data of whichever region the engine reports as the last)
+                def once(lst):
+                    out, seen = [], {}
+                    for sid, data in lst:
+                        if sid in seen:
+                            if (sid, data) in got and out[seen[sid]] not in got:
+                                out[seen[sid]] = (sid, data)
+                            continue
+                        seen[sid] = len(out)
+                        out.append((sid, data))
+                    return out
+                due, due_rec = once(due), once(due_rec)
             kd = sorted(due, key=repr)
             kg = sorted(got, key=repr)
             if mode == "leave":
